@@ -818,9 +818,11 @@ theorem foldl_nextAct_const {l : List Err} {v : Val} (hne : l ≠ []) (h : ∀ m
 
 mutual
 /-- `c` records the input itself (`Conv.recordsInput`), or is a non-empty union -- nested to any depth --
-of such converters -/
+of such converters, or a `ValueOrList` of such a converter (its two members are the element converter and
+the list converter, which records the input itself) -/
 def Conv.recordsInputDeep : Conv → Bool
   | .union ds => !ds.isEmpty && recordsInputDeepList ds
+  | .vol d => d.recordsInputDeep
   | c => c.recordsInput
 def recordsInputDeepList : List Conv → Bool
   | [] => true
@@ -842,18 +844,25 @@ theorem Conv.recordsInputDeep_of_recordsInput {c : Conv} (h : c.recordsInput = t
     c.recordsInputDeep = true := by
   cases c <;> first | exact h | cases h
 
-/-- the characterisation: `recordsInput`, or a non-empty union of `recordsInputDeep` converters -/
+theorem Conv.recordsInputDeep_vol {d : Conv} : (Conv.vol d).recordsInputDeep = d.recordsInputDeep := by
+  rw [Conv.recordsInputDeep]
+
+/-- the characterisation: `recordsInput`, or a non-empty union of `recordsInputDeep` converters, or a
+`ValueOrList` of a `recordsInputDeep` converter -/
 theorem Conv.recordsInputDeep_iff {c : Conv} :
     c.recordsInputDeep = true ↔
-      c.recordsInput = true ∨ ∃ ds, c = .union ds ∧ ds ≠ [] ∧ ∀ d ∈ ds, d.recordsInputDeep = true := by
+      c.recordsInput = true ∨ (∃ ds, c = .union ds ∧ ds ≠ [] ∧ ∀ d ∈ ds, d.recordsInputDeep = true) ∨
+        ∃ d, c = .vol d ∧ d.recordsInputDeep = true := by
   constructor
   · intro h
     cases c
-    case union ds => exact .inr ⟨ds, rfl, Conv.recordsInputDeep_union.1 h⟩
+    case union ds => exact .inr (.inl ⟨ds, rfl, Conv.recordsInputDeep_union.1 h⟩)
+    case vol d => exact .inr (.inr ⟨d, rfl, by rwa [Conv.recordsInputDeep_vol] at h⟩)
     all_goals exact .inl h
-  · rintro (h | ⟨ds, rfl, h⟩)
+  · rintro (h | ⟨ds, rfl, h⟩ | ⟨d, rfl, h⟩)
     · exact Conv.recordsInputDeep_of_recordsInput h
     · exact Conv.recordsInputDeep_union.2 h
+    · rwa [Conv.recordsInputDeep_vol]
 
 /-! ## Every key of a path sits in a `While parsing field '…'` line -/
 
